@@ -27,6 +27,7 @@ fn main() {
     let mut tally = Tally::default();
     match engine.as_str() {
         "vrun" => vrun(&profile, seed, start, count, &out, verbose, &mut tally),
+        #[cfg(feature = "writers")]
         "vpure" => {
             let workdir = std::path::Path::new(&out).parent().map_or(".".to_owned(), |p| p.display().to_string());
             for idx in start..start + count {
@@ -48,6 +49,7 @@ fn main() {
                 }
             }
         }
+        #[cfg(feature = "writers")]
         "vstream" => vstream(&profile, seed, start, count, verbose, &mut tally, &out),
         other => {
             eprintln!("unknown engine {other}");
@@ -124,6 +126,7 @@ fn vrun(profile: &str, seed: u64, start: u64, count: u64, out: &str, verbose: bo
     }
 }
 
+#[cfg(feature = "writers")]
 fn vstream(profile: &str, seed: u64, start: u64, count: u64, verbose: bool, tally: &mut Tally, out: &str) {
     let mut dump: Option<std::io::BufWriter<std::fs::File>> = (profile == "c14").then(|| std::io::BufWriter::new(std::fs::File::create(format!("{out}.dump.jsonl")).expect("dump file")));
     use vh::{oracles_stream as os, recw, rng::Rng, synth};
